@@ -524,7 +524,7 @@ class FT:
     def read_const(self, mod, name):
         v = self.new(name)
         self.emit('StateRead', f"{mod}.{name}", self.modroot)
-        self.emit('Alias', v, self.modroot)
+        self.emit('Assign', v, self.modroot)
         if self.P.const_is_list(mod, name):
             self.tags[v] = 'list'
         return v
@@ -532,7 +532,7 @@ class FT:
     def read_classattr(self, owner, attr):
         v = self.new(attr)
         self.emit('StateRead', f"{owner.cid}.{attr}", self.modroot)
-        self.emit('Alias', v, self.modroot)
+        self.emit('Assign', v, self.modroot)
         if isinstance(owner.attrs[attr], (ast.List, ast.Tuple, ast.Dict)):
             self.tags[v] = 'list'
         return v
@@ -663,7 +663,7 @@ class FT:
             sname, root = self.slotroot[attr]
             v = self.new('self.' + attr)
             self.emit('StateRead', sname, self.selfvar)
-            self.emit('Alias', v, root)
+            self.emit('Assign', v, root)
             t = self.slotinfo.get(sname, {}).get('tag')
             if t:
                 self.tags[v] = t
@@ -705,14 +705,14 @@ class FT:
         res = self.fresh('.' + attr)
         for s in sorted(set(slots)):
             self.emit('StateRead', s, v)
-            self.emit('Alias', res, v)
+            self.emit('Assign', res, v)
         for c in cattrs:
             self.emit('StateRead', f"{c.cid}.{attr}", self.modroot)
-            self.emit('Alias', res, self.modroot)
+            self.emit('Assign', res, self.modroot)
         for f in props:
-            self.emit('Alias', res, self.call_py(f, v, [], {}, node))
+            self.emit('Assign', res, self.call_py(f, v, [], {}, node))
         if lib_alias:
-            self.emit('Alias', res, v)
+            self.emit('Assign', res, v)
             if not (slots or cattrs or props):
                 if attr in ATTR_KEEP_TAG or attr in ('T', 'values'):
                     if self.tag(v) == 'val' or attr in ('T', 'values'):
@@ -727,7 +727,7 @@ class FT:
         if self.is_listlike(node.slice) and self.tag(v) != 'list':
             return self.fresh('idx', 'val')
         res = self.fresh('sub')
-        self.emit('Alias', res, v)
+        self.emit('Assign', res, v)
         if self.tag(v) == 'val':
             self.tags[res] = 'val'
         return res
@@ -737,8 +737,8 @@ class FT:
         ta, tb = self.tag(a), self.tag(b)
         if isinstance(node.op, (ast.Add, ast.Mult)) and 'list' in (ta, tb):
             res = self.fresh('listop', 'list')
-            self.emit('Alias', res, a)
-            self.emit('Alias', res, b)
+            self.emit('Store', res, a)
+            self.emit('Store', res, b)
             return res
         if isinstance(node.op, (ast.BitAnd, ast.BitOr)) and ta == tb == 'mask':
             return self.fresh('mask', 'mask')
@@ -762,15 +762,15 @@ class FT:
         vs = [self.ev(v) for v in node.values]
         res = self.fresh('boolop')
         for v in vs:
-            self.emit('Alias', res, v)
+            self.emit('Assign', res, v)
         return res
 
     def ev_IfExp(self, node):
         self.ev(node.test)
         a, b = self.ev(node.body), self.ev(node.orelse)
         res = self.fresh('ifexp')
-        self.emit('Alias', res, a)
-        self.emit('Alias', res, b)
+        self.emit('Assign', res, a)
+        self.emit('Assign', res, b)
         if self.tag(a) == self.tag(b) and self.tag(a) is not None:
             self.tags[res] = self.tag(a)
         return res
@@ -779,7 +779,7 @@ class FT:
         vs = [self.ev(e.value if isinstance(e, ast.Starred) else e) for e in elts]
         res = self.fresh(hint, 'list')
         for v in vs:
-            self.emit('Alias', res, v)
+            self.emit('Store', res, v)
         return res
 
     def ev_Tuple(self, node):
@@ -810,7 +810,7 @@ class FT:
         self.env = saved
         res = self.fresh('comp', 'list')
         for v in vs:
-            self.emit('Alias', res, v)
+            self.emit('Store', res, v)
         return res
 
     def ev_ListComp(self, node):
@@ -943,10 +943,10 @@ class FT:
             return self.call_py(cands[0], v, args, kws, node)
         res = self.fresh('.' + attr + '()')
         if cands:
-            self.emit('Alias', res, self.call_many(cands, v, args, kws, node))
+            self.emit('Assign', res, self.call_many(cands, v, args, kws, node))
         if spec is not None:
             r = self.lib_call('.' + attr, spec, args, kws, v, node)
-            self.emit('Alias', res, r)
+            self.emit('Assign', res, r)
             if not cands and self.tag(r) is not None:
                 self.tags[res] = self.tag(r)
         return res
@@ -956,7 +956,7 @@ class FT:
             return self.call_py(cands[0], recv, args, kws, node)
         res = self.fresh('dispatch')
         for c in cands:
-            self.emit('Alias', res, self.call_py(c, recv, list(args), kws, node))
+            self.emit('Assign', res, self.call_py(c, recv, list(args), kws, node))
         return res
 
     def construct(self, ci, args, kws, node):
@@ -1001,13 +1001,21 @@ class FT:
                 full.append(self.groot)          # rng omitted: numpy's global generator
             elif not is_immutable_default(fi.defaults.get(p)):
                 t = self.new('default_' + p)      # shared mutable default value = module state
-                self.emit('Alias', t, self.modroot)
+                self.emit('Assign', t, self.modroot)
                 full.append(t)
             else:
                 full.append(self.fresh('default_' + p, 'const'))
         full += [self.modroot, self.groot]
+        temps = []
+        for k, a in enumerate(full):
+            if new and k == 0:
+                temps.append(a)            # the object under construction itself
+                continue
+            t = self.new('arg')
+            self.emit('Assign', t, a)
+            temps.append(t)
         x = self.new(fi.fid.split('.')[-1] + '()')
-        self.emit('CallNew' if new else 'Call', x, fi.fid, tuple(full))
+        self.emit('CallNew' if new else 'Call', x, fi.fid, tuple(temps))
         if fi.fid not in self.callees:
             self.callees.append(fi.fid)
         return x
@@ -1018,15 +1026,15 @@ class FT:
             a0 = node.args[0] if node.args else None
             res = self.fresh('rng', 'rng')
             if a0 is None or (isinstance(a0, ast.Constant) and a0.value is None):
-                self.emit('Alias', res, self.groot)
+                self.emit('Assign', res, self.groot)
             else:
-                self.emit('Alias', res, args[0])
+                self.emit('Assign', res, args[0])
             return res
         if sp == 'pdctor':
             res = self.fresh('table', 'val')
             data = args[0] if args else (kws['data'][0] if 'data' in kws else None)
             if data is not None:
-                self.emit('Alias', res, data)
+                self.emit('Assign', res, data)
             return res
         res = self.fresh(q.split('.')[-1] or q)
         allv = list(args) + [v for v, _ in kws.values()]
@@ -1046,14 +1054,14 @@ class FT:
                 self.bad(node, "too many positional arguments for a ufunc")
             if len(args) == nin + 1:
                 self.emit('Mutate', args[nin])
-                self.emit('Alias', res, args[nin])
+                self.emit('Assign', res, args[nin])
         if 'maxpos' in spec and len(args) > spec['maxpos']:
             self.bad(node, "positional argument beyond the classified ones (possible out=)")
         for k, (v, knode) in kws.items():
             const = knode.value if isinstance(knode, ast.Constant) else '?'
             if k == 'out':
                 self.emit('Mutate', v)
-                self.emit('Alias', res, v)
+                self.emit('Assign', res, v)
             elif k == 'inplace':
                 if const is not False:
                     if recv is None:
@@ -1062,7 +1070,7 @@ class FT:
             elif k == 'copy':
                 if const is not True:
                     for w in pick('all'):
-                        self.emit('Alias', res, w)
+                        self.emit('Assign', res, w)
             elif k == 'where':
                 self.bad(node, "where= keyword")
             elif k.startswith('overwrite_'):
@@ -1076,14 +1084,14 @@ class FT:
                 self.bad(node, "**kwargs in a library call")
         for i in spec.get('ret', ()):
             for w in pick(i):
-                self.emit('Alias', res, w)
+                self.emit('Assign', res, w)
         for i in spec.get('mut', ()):
             for w in pick(i):
                 self.emit('Mutate', w)
         for i in spec.get('store', ()):
             for w in pick(i):
                 if recv is not None:
-                    self.emit('Alias', recv, w)
+                    self.emit('Store', recv, w)
         if spec.get('draw'):
             self.emit('Draw', recv)
         t = spec.get('tag')
@@ -1098,12 +1106,12 @@ class FT:
         if isinstance(t, ast.Name):
             if t.id in self.globals:
                 self.emit('StateWrite', f"{self.m}.{t.id}", self.modroot)
-                self.emit('Alias', self.modroot, v)
+                self.emit('Store', self.modroot, v)
             self.env[t.id] = v
         elif isinstance(t, (ast.Tuple, ast.List)):
             for e in t.elts:
                 x = self.fresh('unpack')
-                self.emit('Alias', x, v)
+                self.emit('Assign', x, v)
                 self.bind_target(e, x)
         elif isinstance(t, ast.Starred):
             self.bind_target(t.value, v)
@@ -1113,20 +1121,20 @@ class FT:
                     self.bad(t, "assignment to an unknown slot")
                 sname, root = self.slotroot[t.attr]
                 self.emit('StateWrite', sname, self.selfvar)
-                self.emit('Alias', root, v)
+                self.emit('Assign', root, v)
                 self.slot_writes.append((sname, v))
             else:
                 obj = self.ev(t.value)
                 self.attr_store_slots(obj, t.attr)
                 self.emit('Mutate', obj)
                 if self.tag(obj) != 'val':
-                    self.emit('Alias', obj, v)
+                    self.emit('Store', obj, v)
         elif isinstance(t, ast.Subscript):
             obj = self.ev(t.value)
             self.ev_slice(t.slice)
             self.emit('Mutate', obj)
             if self.tag(obj) != 'val':
-                self.emit('Alias', obj, v)
+                self.emit('Store', obj, v)
         else:
             self.bad(t, "assignment target")
 
@@ -1181,7 +1189,7 @@ class FT:
 
     def st_Return(self, s):
         if s.value is not None:
-            self.emit('Alias', self.ret, self.ev(s.value))
+            self.emit('Assign', self.ret, self.ev(s.value))
         return False
 
     def st_Assign(self, s):
@@ -1208,9 +1216,10 @@ class FT:
             old = self.ev_Name(ast.Name(id=t.id, ctx=ast.Load(), lineno=s.lineno))
             self.emit('Mutate', old)
             nv = self.fresh(t.id)
-            self.emit('Alias', nv, old)
+            self.emit('Assign', nv, old)
             if 'list' in (self.tag(old), self.tag(ve)):
-                self.emit('Alias', nv, ve)
+                self.emit('Store', nv, ve)
+                self.emit('Store', old, ve)
             if self.tag(old) is not None:
                 self.tags[nv] = self.tag(old)
             self.bind_target(t, nv)
@@ -1220,7 +1229,7 @@ class FT:
             sname, root = self.slotroot[t.attr]
             self.emit('StateWrite', sname, self.selfvar)
             if 'list' in (self.tag(old), self.tag(ve)):
-                self.emit('Alias', root, ve)
+                self.emit('Store', old, ve)
         elif isinstance(t, ast.Attribute):
             obj = self.ev(t.value)
             self.attr_store_slots(obj, t.attr)
@@ -1247,7 +1256,7 @@ class FT:
             else:
                 p = self.new(n + '_phi')
                 for v in vs:
-                    self.emit('Alias', p, v)
+                    self.emit('Assign', p, v)
                 ts = {self.tag(v) for v in vs}
                 if len(ts) == 1 and None not in ts:
                     self.tags[p] = ts.pop()
@@ -1274,7 +1283,7 @@ class FT:
         for n in names:
             p = self.new(n + '_loop')
             if n in self.env:
-                self.emit('Alias', p, self.env[n])
+                self.emit('Assign', p, self.env[n])
             phis[n] = p
             self.env[n] = p
         after = dict(self.env)
@@ -1294,7 +1303,7 @@ class FT:
         for n, p in phis.items():
             v = self.env.get(n)
             if v is not None and v != p:
-                self.emit('Alias', p, v)
+                self.emit('Assign', p, v)
 
     def st_While(self, s):
         return self.loop(s, lambda: self.ev(s.test))
@@ -1312,14 +1321,14 @@ class FT:
                 def header2():
                     for t, iv in zip(s.target.elts, its):
                         x = self.fresh('item')
-                        self.emit('Alias', x, iv)
+                        self.emit('Assign', x, iv)
                         self.bind_target(t, x)
                 return self.loop(s, header2)
         it = self.ev(s.iter)
 
         def header():
             x = self.fresh('item')
-            self.emit('Alias', x, it)
+            self.emit('Assign', x, it)
             self.bind_target(s.target, x)
         return self.loop(s, header)
 
@@ -1420,199 +1429,3 @@ def public_fids(prog):
     return pub
 
 
-# ----------------------------------------------------------------------------------------------
-# python mirror of the Coq checker (diagnostics and slot classification only — the verdict that
-# counts is the one computed by Coq on the generated file)
-# ----------------------------------------------------------------------------------------------
-def closure(edges, seeds):
-    adj = {}
-    for x, y in edges:
-        adj.setdefault(x, set()).add(y)
-        adj.setdefault(y, set()).add(x)
-    seen = set(seeds)
-    todo = list(seeds)
-    while todo:
-        x = todo.pop()
-        for y in adj.get(x, ()):
-            if y not in seen:
-                seen.add(y)
-                todo.append(y)
-    return seen
-
-
-def expand_call(sm, x, args, new=False):
-    def argn(i):
-        return [args[i]] if i < len(args) else []
-    out = [('Fresh', x)]
-    for i in sm['mut']:
-        out += [('Mutate', a) for a in argn(i)]
-    for i in sm['ret']:
-        out += [('Alias', x, a) for a in argn(i)]
-    for i, j in sm['lnk']:
-        out += [('Alias', a, b) for a in argn(i) for b in argn(j)]
-    if sm['rng']:
-        out.append(('GlobalRng',))
-    for i in sm['drw']:
-        out += [('Draw', a) for a in argn(i)]
-    for g, i in sm['sw']:
-        if not (new and i == 0):
-            out += [('StateWrite', g, a) for a in argn(i)]
-    for g, i in sm['sr']:
-        if not (new and i == 0):
-            out += [('StateRead', g, a) for a in argn(i)]
-    return out
-
-
-def prims(S, body):
-    out = []
-    for st in body:
-        if st[0] in ('Call', 'CallNew'):
-            if st[2] not in S:
-                return None
-            out += expand_call(S[st[2]], st[1], st[3], st[0] == 'CallNew')
-        else:
-            out.append(st)
-    return out
-
-
-def summary_of(S, f):
-    P = prims(S, f['body'])
-    if P is None:
-        return None
-    E = [(s[1], s[2]) for s in P if s[0] == 'Alias']
-    priv = {v for _, v in f['slots']}
-    cls = [closure(E, fm) for fm in f['formals']]
-    clp = [closure(E, [v for v in fm if v not in priv]) for fm in f['formals']]
-    pos = range(len(cls))
-    gcl = closure(E, [f['grng']])
-    scl = [(g, closure(E, [v])) for g, v in f['slots']]
-    sw, sr = [], []
-    for s in P:
-        if s[0] == 'StateWrite':
-            sw += [(s[1], i) for i in pos if s[2] in cls[i]]
-        elif s[0] == 'Mutate':
-            sw += [(g, 0) for g, c in scl if s[1] in c]
-        elif s[0] == 'StateRead':
-            sr += [(s[1], i) for i in pos if s[2] in cls[i]]
-    return dict(
-        mut=[i for i in pos if any(s[0] == 'Mutate' and s[1] in clp[i] for s in P)],
-        ret=[i for i in pos if f['ret'] in cls[i]],
-        lnk=[(i, j) for i in pos for j in pos if i < j and any(r in cls[i] for r in f['formals'][j])],
-        rng=any(s[0] == 'GlobalRng' or (s[0] == 'Draw' and s[1] in gcl) for s in P),
-        drw=[i for i in pos if any(s[0] == 'Draw' and s[1] in cls[i] for s in P)],
-        sw=sw, sr=sr)
-
-
-def check_fun(wl, rd, allow_g, S, f, names=None):
-    """returns list of reasons (empty = accepted)"""
-    P = prims(S, f['body'])
-    if P is None:
-        return ['a callee has no summary (recursion or failed translation)']
-    nm = (lambda v: f"{names[v]}#{v}") if names else str
-    E = [(s[1], s[2]) for s in P if s[0] == 'Alias']
-    T = closure(E, f['params'])
-    Tg = closure(E, [f['grng']])
-    why = []
-    for g in f['owned']:
-        if g in T:
-            why.append(f"private root {nm(g)} may share memory with a parameter")
-    if not allow_g:
-        for p in f['params'] + f['owned']:
-            if p in Tg:
-                why.append(f"root {nm(p)} may hold numpy's global generator")
-    for s in P:
-        if s[0] == 'Mutate' and s[1] in T:
-            why.append(f"write through {nm(s[1])}, which may share memory with a parameter / module state")
-        elif s[0] == 'GlobalRng':
-            why.append("draw from numpy's global / an unseeded generator")
-        elif s[0] == 'Draw' and not allow_g and s[1] in Tg:
-            why.append(f"draw from {nm(s[1])}, which may be numpy's global generator (rng not passed on)")
-        elif s[0] == 'StateWrite' and s[1] not in wl and s[2] in T:
-            why.append(f"state slot {s[1]} of {nm(s[2])} (caller's object / module) is written")
-        elif s[0] == 'StateRead' and s[1] not in rd and s[2] in T:
-            why.append(f"mutable state slot {s[1]} of {nm(s[2])} (caller's object / module) is read")
-    return sorted(set(why))
-
-
-def seed_plumbed(S, f):
-    P = prims(S, f['body'])
-    if P is None:
-        return False
-    E = [(s[1], s[2]) for s in P if s[0] == 'Alias']
-    Tc = closure(E, f['owned'] + [v for fm in f['formals'] for v in fm])
-    Tg = closure(E, [f['grng']])
-    return all(not (s[0] == 'GlobalRng' or (s[0] == 'Draw' and (s[1] not in Tc or s[1] in Tg))) for s in P)
-
-
-# ----------------------------------------------------------------------------------------------
-# whole-program translation
-# ----------------------------------------------------------------------------------------------
-def translate_all(repo):
-    prog = Program(repo)
-    util_lists = eval_const_lists(prog, 'util')
-    columns = {c for v in util_lists.values() for c in v} | {'dt'}
-    slotinfo = {}
-    result = None
-    for rnd in range(6):
-        fts = {}
-        todo = list(prog.funcs.values())
-        while todo:
-            fi = todo.pop(0)
-            ft = FT(prog, fi, slotinfo, columns).run()
-            fts[fi.fid] = ft
-            todo += ft.nested_infos
-        # call-graph order (callees first)
-        order, state = [], {}
-
-        def visit(fid, stack):
-            if state.get(fid) == 2:
-                return
-            if state.get(fid) == 1:
-                raise Unsupported("recursion: " + ' -> '.join(stack + [fid]))
-            state[fid] = 1
-            for c in fts[fid].callees:
-                visit(c, stack + [fid])
-            state[fid] = 2
-            order.append(fid)
-
-        for fid in fts:
-            visit(fid, [])
-        funcs = {}
-        for fid in order:
-            ft = fts[fid]
-            funcs[fid] = dict(params=ft.f_params, owned=ft.f_owned, grng=ft.groot, formals=ft.f_formals,
-                              slots=ft.f_slots, body=ft.stmts, ret=ft.ret, names=ft.names,
-                              kind=ft.fi.kind, cls=ft.fi.cls.cid if ft.fi.cls else None)
-        S = {}
-        for fid in order:
-            sm = summary_of(S, funcs[fid])
-            if sm is not None:
-                S[fid] = sm
-        # slot classification: private unless some method may store caller memory / the global generator
-        new = {}
-        for fid in order:
-            ft, f = fts[fid], funcs[fid]
-            if not ft.slotroot:
-                continue
-            P = prims(S, f['body']) or []
-            E = [(s[1], s[2]) for s in P if s[0] == 'Alias']
-            prot = [ft.modroot, ft.groot] + [v for fm in ft.f_formals[1:-2] for v in fm]
-            T = closure(E, prot)
-            for attr, (sname, root) in ft.slotroot.items():
-                d = new.setdefault(sname, dict(private=True, tags=set()))
-                if root in T:
-                    d['private'] = False
-            for sname, v in ft.slot_writes:
-                new[sname]['tags'].add(ft.tag(v))
-        info = {}
-        for sname, d in new.items():
-            tag = 'val' if d['tags'] == {'val'} else None
-            info[sname] = dict(private=d['private'], tag=tag)
-        result = dict(prog=prog, fts=fts, funcs=funcs, order=order, S=S, slotinfo=info,
-                      util_lists=util_lists)
-        if info == slotinfo:
-            break
-        slotinfo = info
-    else:
-        raise Unsupported("slot classification did not stabilise")
-    return result
